@@ -287,7 +287,7 @@ def partitions(tier, seed):
         else:
             hs = holes
         for h in hs:
-            for ln in ((1,) if q else (0, 1, 2)):
+            for ln in (((1, 2) if h == ("lt2",) else (1,)) if q else (0, 1, 2)):
                 P.append(dict(name="doc/%s/%s/len%d" % (shape, "+".join(h), ln), harness="h_doc",
                               params=dict(shape=shape, hole=list(h), lens=[ln] * len(h)), budget=70 if q else 700, reach=[],
                               bounds="document shape %s, symbolic %s of %d arbitrary characters" % (shape, "+".join(h), ln)))
